@@ -125,6 +125,24 @@ type Pool struct {
 	once  sync.Once
 	items []interface{}
 	held  map[interface{}]int
+	known bool
+}
+
+// every Pool used under control, so that a harness can empty pools it cannot name (ResetPools)
+var allPools []*Pool
+
+func (p *Pool) register() {
+	if !p.known {
+		p.known = true
+		allPools = append(allPools, p)
+	}
+}
+
+// ResetPools empties every modelled pool that has been used under control.
+func ResetPools() {
+	for _, p := range allPools {
+		p.Reset()
+	}
 }
 
 // PoolViolations collects pool-discipline violations seen under control: an object handed out
@@ -137,6 +155,7 @@ func (p *Pool) Get() interface{} {
 		p.once.Do(func() { p.real.New = p.New })
 		return p.real.Get()
 	}
+	p.register()
 	vrt.Yield("Pool.Get")
 	n := len(p.items)
 	c := vrt.Choose("pool", "Pool.Get", n+1)
@@ -165,6 +184,7 @@ func (p *Pool) Put(v interface{}) {
 		p.real.Put(v)
 		return
 	}
+	p.register()
 	vrt.Yield("Pool.Put")
 	for _, it := range p.items {
 		if it == v {
